@@ -612,6 +612,106 @@ Proof.
     + apply O1; try assumption. intro E; injection E as E _; apply Nr; symmetry; exact E.
 Qed.
 
+(* a history of bit operations *)
+Inductive bitop : Type := BSet (b : bool) | BToggle.
+
+Fixpoint apply_bitops (buf : list N) (ops : list (N * N * bitop)) (dim : N) : option (list N) :=
+  match ops with
+  | [] => Some buf
+  | (row, col, BSet b) :: rest =>
+      match entry_set_bit buf row col b dim with
+      | Some buf' => apply_bitops buf' rest dim
+      | None => None
+      end
+  | (row, col, BToggle) :: rest =>
+      match entry_toggle_bit buf row col dim with
+      | Some (buf', _) => apply_bitops buf' rest dim
+      | None => None
+      end
+  end.
+
+(* value of cell (row, col) after the history, given its initial value *)
+Fixpoint bit_history (ops : list (N * N * bitop)) (row col : N) (init : bool) : bool :=
+  match ops with
+  | [] => init
+  | (r, c, o) :: rest =>
+      bit_history rest row col
+        (if (r =? row) && (c =? col)
+         then match o with BSet b => b | BToggle => negb init end
+         else init)
+  end.
+
+Lemma cell_bit_defined buf rows cols dim hdr row col :
+  is_matrix buf rows cols dim hdr ->
+  row < nrows rows -> col < cols ->
+  nrows rows * cols < 18446744073709551616 ->
+  N.of_nat (length hdr) + (nrows rows * cols + 7) / 8 <= N.of_nat (length buf) ->
+  exists v, entry_get_bit buf row col dim = Some v.
+Proof.
+  intros M Hrow Hcol Hsz Hfit.
+  destruct (cell_bit_generic _ _ _ _ _ row col (fun b => b) M Hrow Hcol Hsz Hfit)
+    as (_ & _ & _ & _ & _ & G0 & _); [reflexivity|].
+  eexists. exact G0.
+Qed.
+
+Theorem cell_bit_sequence ops : forall buf rows cols dim hdr,
+  is_matrix buf rows cols dim hdr ->
+  nrows rows * cols < 18446744073709551616 ->
+  N.of_nat (length hdr) + (nrows rows * cols + 7) / 8 <= N.of_nat (length buf) ->
+  Forall (fun op => match op with (r, c, _) => r < nrows rows /\ c < cols end) ops ->
+  exists buf',
+    apply_bitops buf ops dim = Some buf' /\
+    is_matrix buf' rows cols dim hdr /\ length buf' = length buf /\
+    forall row col, row < nrows rows -> col < cols ->
+      exists v0, entry_get_bit buf row col dim = Some v0 /\
+                 entry_get_bit buf' row col dim = Some (bit_history ops row col v0).
+Proof.
+  induction ops as [|[[r c] o] rest IH]; intros buf rows cols dim hdr M Hsz Hfit Hops.
+  - exists buf. split; [reflexivity|]. split; [exact M|]. split; [reflexivity|].
+    intros row col Hrow Hcol. destruct (cell_bit_defined _ _ _ _ _ row col M Hrow Hcol Hsz Hfit) as [v Hv].
+    exists v. split; exact Hv.
+  - inversion Hops as [|? ? Hop Hrest]; subst. cbv beta iota in Hop. destruct Hop as (Hr & Hc).
+    assert (Step : exists b1,
+      (match o with
+       | BSet b => match entry_set_bit buf r c b dim with
+                   | Some buf' => apply_bitops buf' rest dim | None => None end
+       | BToggle => match entry_toggle_bit buf r c dim with
+                    | Some (buf', _) => apply_bitops buf' rest dim | None => None end
+       end = apply_bitops b1 rest dim) /\
+      is_matrix b1 rows cols dim hdr /\ length b1 = length buf /\
+      (forall v0, entry_get_bit buf r c dim = Some v0 ->
+         entry_get_bit b1 r c dim = Some (match o with BSet b => b | BToggle => negb v0 end)) /\
+      (forall row' col', row' < nrows rows -> col' < cols -> (row', col') <> (r, c) ->
+         entry_get_bit b1 row' col' dim = entry_get_bit buf row' col' dim)).
+    { destruct o as [b|].
+      - destruct (cell_bit_set _ _ _ _ _ r c b M Hr Hc Hsz Hfit) as (b1 & S1 & M1 & L1 & G1 & _ & _ & O1).
+        exists b1. rewrite S1. split; [reflexivity|]. split; [exact M1|]. split; [exact L1|].
+        split; [intros; exact G1|exact O1].
+      - destruct (cell_bit_toggle _ _ _ _ _ r c M Hr Hc Hsz Hfit)
+          as (b1 & old & S1 & G0 & M1 & L1 & G1 & _ & _ & O1).
+        exists b1. rewrite S1. split; [reflexivity|]. split; [exact M1|]. split; [exact L1|].
+        split; [|exact O1].
+        intros v0 Hv0. rewrite G0 in Hv0. injection Hv0 as <-. exact G1. }
+    destruct Step as (b1 & S1 & M1 & L1 & G1 & O1).
+    destruct (IH b1 rows cols dim hdr M1 Hsz) as (b2 & A2 & M2 & L2 & G2);
+      [rewrite L1; exact Hfit|exact Hrest|].
+    exists b2. split.
+    { cbn [apply_bitops]. destruct o; rewrite S1; exact A2. }
+    split; [exact M2|]. split; [lia|].
+    intros row col Hrow Hcol.
+    destruct (cell_bit_defined _ _ _ _ _ row col M Hrow Hcol Hsz Hfit) as [v0 Hv0].
+    exists v0. split; [exact Hv0|].
+    destruct (G2 row col Hrow Hcol) as (v1 & Hv1 & Hfin). rewrite Hfin. cbn [bit_history].
+    f_equal. f_equal.
+    destruct (N.eqb_spec r row) as [Er|Nr]; cbn [andb].
+    + destruct (N.eqb_spec c col) as [Ec|Nc].
+      * subst row col. rewrite (G1 v0 Hv0) in Hv1. injection Hv1 as <-. reflexivity.
+      * rewrite O1 in Hv1; try assumption; [rewrite Hv0 in Hv1; injection Hv1 as <-; reflexivity|].
+        intro E; injection E as _ E; apply Nc; symmetry; exact E.
+    + rewrite O1 in Hv1; try assumption; [rewrite Hv0 in Hv1; injection Hv1 as <-; reflexivity|].
+      intro E; injection E as E _; apply Nr; symmetry; exact E.
+Qed.
+
 (* ------------------------------------------------------------- statements in
    the form used by Properties_C10_bitdim.v (hypotheses spelled out) *)
 
@@ -786,6 +886,29 @@ Proof.
   intros Hr Hc1 Hc E B Hw1 Hw8 Hfit Hops.
   pose proof (is_matrix_intro rows cols dim hdr data Hr Hc1 Hc E B) as M.
   destruct (cell_write_sequence ops _ _ _ _ _ w M Hw1 Hw8 Hfit Hops) as (buf' & A & M' & L & G).
+  destruct (is_matrix_out _ _ _ _ _ data M' L) as (data' & -> & Ld).
+  exists data'. repeat split; assumption.
+Qed.
+
+Theorem c10_bit_sequence rows cols dim hdr data ops :
+  rows < 18446744073709551616 -> 1 <= cols -> cols < 18446744073709551616 ->
+  pair_encode rows cols = Some (dim, hdr) ->
+  N.of_nat (length (hdr ++ data)) < 18446744073709551616 ->
+  (if rows =? 0 then 1 else rows) * cols < 18446744073709551616 ->
+  N.of_nat (length hdr) + ((if rows =? 0 then 1 else rows) * cols + 7) / 8 <= N.of_nat (length (hdr ++ data)) ->
+  Forall (fun op => match op with
+                    | (r, c, _) => r < (if rows =? 0 then 1 else rows) /\ c < cols
+                    end) ops ->
+  exists data',
+    apply_bitops (hdr ++ data) ops dim = Some (hdr ++ data') /\
+    length data' = length data /\
+    forall row col, row < (if rows =? 0 then 1 else rows) -> col < cols ->
+      exists v0, entry_get_bit (hdr ++ data) row col dim = Some v0 /\
+                 entry_get_bit (hdr ++ data') row col dim = Some (bit_history ops row col v0).
+Proof.
+  intros Hr Hc1 Hc E B Hsz Hfit Hops.
+  pose proof (is_matrix_intro rows cols dim hdr data Hr Hc1 Hc E B) as M.
+  destruct (cell_bit_sequence ops _ _ _ _ _ M Hsz Hfit Hops) as (buf' & A & M' & L & G).
   destruct (is_matrix_out _ _ _ _ _ data M' L) as (data' & -> & Ld).
   exists data'. repeat split; assumption.
 Qed.
